@@ -358,10 +358,29 @@ func runCase(c *Case, d *driver, opts runOpts) (res caseResult) {
 					}
 					return opts.keepGoing
 				}
-				addF(finding{Step: step, Kind: "diverge", Clause: strings.Join(projs, "+"), Tags: *tags, Detail: describeDiff(io, mo, projs),
+				consumedDiffers := false
+				clause := strings.Join(projs, "+")
+				if hasProj(clause, "G") {
+					// "G <consumed> <alternate active>": only a different byte count loses the model; a
+					// different active buffer is a state difference like any other (a reply or a
+					// notification that comes out wrong because of it is still reported, later) and
+					// is filed with the view state (C17), not with the framing (C09)
+					a, b := strings.Fields(io.G), strings.Fields(mo.lines["G"])
+					consumedDiffers = len(a) < 2 || len(b) < 2 || a[1] != b[1]
+					if !consumedDiffers {
+						names := append([]string(nil), projs...)
+						for k := range names {
+							if names[k] == "G" {
+								names[k] = "Vactive"
+							}
+						}
+						clause = strings.Join(names, "+")
+					}
+				}
+				addF(finding{Step: step, Kind: "diverge", Clause: clause, Tags: *tags, Detail: describeDiff(io, mo, projs),
 					Alt: strings.HasSuffix(mo.lines["G"], " 1")})
 				res.Diverged = true
-				if hasProj(strings.Join(projs, "+"), "G") || res.nDiverge > 12 {
+				if consumedDiffers || res.nDiverge > 12 {
 					// the two sides no longer agree on what has been consumed (or disagree again and
 					// again): the model is lost; panics, wedges and the API monitors still mean something
 					useModel = false
